@@ -19,7 +19,23 @@ func (pass *RenameObject) Process(schemas []*ast.Schema) ([]*ast.Schema, error) 
 		OnRef:    pass.processRef,
 	}
 
-	return visitor.VisitSchemas(schemas)
+	newSchemas, err := visitor.VisitSchemas(schemas)
+	if err != nil {
+		return nil, err
+	}
+
+	// the entry point of a schema names one of its objects: keep it in sync with the renamed object
+	for _, schema := range newSchemas {
+		if schema.EntryPoint == "" {
+			continue
+		}
+
+		if pass.From.MatchesRef(ast.RefType{ReferredPkg: schema.Package, ReferredType: schema.EntryPoint}) {
+			schema.EntryPoint = pass.To
+		}
+	}
+
+	return newSchemas, nil
 }
 
 func (pass *RenameObject) processObject(visitor *Visitor, schema *ast.Schema, object ast.Object) (ast.Object, error) {
